@@ -252,6 +252,8 @@ impl Selector {
         let single_selector = &self.vec[id];
         let epoll = &single_selector.epoll;
         info!("del fd from epoll select, fd={fd:?}");
+        #[cfg(may_verif)]
+        crate::verif::point("ep.del", fd as usize, 0);
         epoll.delete(unsafe { BorrowedFd::borrow_raw(fd) }).ok();
 
         // after EpollCtlDel push the unused event data
